@@ -58,10 +58,16 @@ TECHNIQUE = ('Coq proofs (induction over names / segments, percent-UTF-8 round t
              'decoding) on a hand-written Gallina model that reuses the verified traverser of C02 + regenerated facts + '
              'extracted-model differential correspondence; the property is judged on the implementation with the '
              'extracted declarative spec')
-LEVEL_TEXT = ('see NOTES.md: find_resource inverts resource_path_tuple and resource_path for all trees and admissible '
-              'names; relative = absolute lookups (outside the scheme-like class, which is refuted); missing name = '
-              'KeyError; URL shape and traversal round trip with and without a virtual root; the virtual-root prefix is '
-              'omitted iff the resource lies inside the virtual root; virtual_root() inverts the trimming')
+LEVEL_TEXT = ('Machine-checked theorems, for trees, names, elements and virtual roots of any size (admissible names of '
+              'Unicode scalar values, location-consistent resource): find_resource inverts resource_path_tuple and '
+              'resource_path from any starting resource (the percent/UTF-8 round trip through webob\'s unquote, the WSGI '
+              'latin-1/UTF-8 decoding and split_path_info is proved, not tested); relative and absolute lookups, tuple '
+              'and string, agree and equal item lookup (missing name = KeyError) outside the class "first relative segment '
+              'reads <letters>:", which is characterised on the raw segment and refuted by witnesses (known finding); '
+              'resource_url / resource_path = application URL + slashed quoted names + quoted elements; the virtual-root '
+              'prefix is omitted iff the resource lies inside the virtual root, the URL path traverses back to the resource '
+              'with an empty view name under the same header, and virtual_root() returns the virtual root. For the '
+              'unrepaired text of ResourceURL both refutations of the design are theorems.')
 LEVEL_NOTE = ('Trusted: Coq kernel; hand-written models (C07 + imported C02) validated by correspondence and shape pins; '
               'webob / urllib modelled or oracle; Python harness.')
 
@@ -244,7 +250,51 @@ def gen_case(rng):
     return {'tree': tree, 'r': r, 'a': a, 'rel': rel, 'rel_str': rel_str, 'els': els, 'vroot': vroot, 'script': script}
 
 
+VOCAB = ['a', 'ab', 'a b', 'é', 'b:']
+
+
+def _forests(n, names):
+    """all forests with exactly n nodes whose sibling names are distinct and drawn, in order, from names;
+    a node is a leaf (None) or a folder"""
+    if n == 0:
+        yield []
+        return
+    for i, nm in enumerate(names):
+        for k in range(1, n + 1):                 # size of the first tree
+            for sub in ([None] if k == 1 else []) + [f for f in _forests(k - 1, VOCAB)]:
+                for rest in _forests(n - k, names[i + 1:]):
+                    yield [[nm, sub]] + rest
+
+
+def systematic(limit=60000):
+    """small-scope sweep (thorough tier): every tree with at most 4 non-root nodes over a 5-name vocabulary
+    (a name that extends another, one that needs quoting, a non-ASCII one, one with a colon), every resource,
+    virtual root in {none, every ancestor-or-self, every vocabulary name at every depth of the lineage}"""
+    count = 0
+    for n in range(1, 5):
+        for tree in _forests(n, VOCAB):
+            for r in all_positions(tree):
+                names = names_at(tree, r)
+                vroots = [None] + [wsgi('/' + '/'.join(names[:k])) for k in range(1, len(names) + 1)]
+                for k in range(len(names)):
+                    for v in VOCAB:
+                        if v != names[k]:
+                            vroots.append(wsgi('/' + '/'.join(names[:k] + [v])))
+                if not names:
+                    vroots += ['/', '/a']
+                rel = names[-1:] if names else []
+                a = r[:-1] if r else []
+                for v in vroots:
+                    yield {'tree': tree, 'r': r, 'a': a, 'rel': rel, 'rel_str': '/'.join(quote(x) for x in rel),
+                           'els': [], 'vroot': v, 'script': ''}
+                    count += 1
+                    if count >= limit:
+                        return
+
+
 def generate(rng, tier, n):
+    if tier == 'thorough':
+        yield from systematic()
     for _ in range(n):
         yield gen_case(rng)
 
